@@ -59,8 +59,13 @@ func (n *nodeMemberManager) NotifyGossipLeave(id uint64) {
 		}
 		n.log.Append(will)
 	}
+	// The sessions that died with the peer are the ones known now. The peer's process may be
+	// restarted under the same node id before the purge below runs: sessions that connect to
+	// the new process in the meantime are alive and must keep their records.
 	go func() {
 		<-time.After(3 * time.Second)
-		n.state.SessionMetadatas().DeletePeer(id)
+		for _, session := range sessions {
+			n.state.SessionMetadatas().Delete(session.SessionID)
+		}
 	}()
 }
